@@ -7,6 +7,7 @@ import Uquic.Proofs.SentFlight
 import Uquic.Proofs.SentAcked
 import Uquic.Proofs.SentTimer
 import Uquic.Proofs.SentSkipped
+import Uquic.Proofs.SentDisc
 
 namespace Uquic.Props.C06
 open Uquic.Model.Sent Uquic.Proofs.Sent List
@@ -335,6 +336,16 @@ theorem timer_armed (pn : PN) (val client : Bool) (nts : PN) (ops : List (Op × 
     Initial packet; a deadline one PTO later is armed -/
 example : let s := ((State.new 0 false true 300).run [(.send .initial 1000 (-1) 100 false false [⟨1, true⟩] [], wEnv)]).s
     needsTimer s = true ∧ s.alarm.time = 200001000 := by decide
+
+/-! ### where frames are discarded -/
+
+/-- **discarded_only_when_dropped**: in a reached state, sending, `ReceivedAck`, `OnLossDetectionTimeout`,
+    `QueueProbePacket`, `ReceivedBytes` and `ReceivedPacket` never discard a frame without reporting it: the
+    `discarded` part of the ledger grows only in `DropPackets` (a whole packet number space, or rejected
+    0-RTT packets), `ResetForRetry` and `MigratedPath` (outstanding path probes). -/
+theorem discarded_only_when_dropped (s : State) (hr : Reached s) (op : Op) (e : StepEnv)
+    (hk : Op.keepsFrames op = true) (hok : (s.step op e).2.res = .ok) : (s.step op e).2.disc = [] :=
+  step_disc hr.1 hk hok
 
 /-! ### which skipped numbers are remembered -/
 
